@@ -148,7 +148,11 @@ fn fuzz_scenario(rng: &mut Rng) -> Scenario {
                             1 => ElOp::SetTagName(fuzz_string(rng)),
                             2 => ElOp::RemoveAttr(fuzz_string(rng)),
                             3 => ElOp::GetAttr(fuzz_string(rng)),
-                            _ => ElOp::Before(Content { s: fuzz_string(rng), html: rng.bool(), stream: rng.below(4) as u8, fail_stream: false, utf8_chunks: 0 }),
+                            _ => {
+                                let stream = rng.below(4) as u8;
+                                let utf8_chunks = if stream > 0 && rng.chance(1, 3) { 200 + rng.below(HOSTILE_PIECES.len()) as u8 } else { 0 };
+                                ElOp::Before(Content { s: fuzz_string(rng), html: rng.bool(), stream, fail_stream: false, utf8_chunks })
+                            }
                         };
                     }
                 }
@@ -289,6 +293,9 @@ fn classify_outcome(sc: &Scenario, h: &History) -> Result<(), Fail> {
             }
             Err(Fail::new("C15.no_panic", format!("panic: {m}")))
         }
+        // "Invalid UTF-8" is the streaming sink's own error for the non-UTF-8 byte pieces some
+        // scripted streaming handlers write (and propagate): a proper Err, not an internal one
+        Outcome::Err(ErrKind::Handler(m), _) if m == "Invalid UTF-8" && serde_json::to_string(&sc.handlers).is_ok_and(|j| j.contains("\"utf8_chunks\":2")) => Ok(()),
         Outcome::Err(ErrKind::Handler(m), _) if m != "injected" => Err(Fail::new("C15.no_panic", format!("internal error surfaced as a content handler error: {m}"))),
         _ => {
             for m in &h.misuse_panics {
